@@ -347,7 +347,7 @@ def schedule_plan(ctx, progs, shared_later=None):
         plan.append((f"pool{k}", "workers", {"order": list(progs), "debug": False, "processes": k}, "copy"))
     # permutations: reversed + random ones, sequential and pool
     perms = [list(reversed(progs))]
-    for _ in range(ctx.pick(1, 3)):
+    for _ in range(ctx.pick(1 if n <= 4 else 0, 3)):   # quick: the reversed order only when there are 5 programs
         p = list(progs)
         ctx.rng.shuffle(p)
         if p != progs and p not in perms:
@@ -928,8 +928,8 @@ def config_plan(ctx):
     if ctx.quick:
         # third configuration: two batches of simulations (n_sims = 6) with keep_all False - the merge of the
         # summary files across batches and the clearing of program outputs run in the parent between tasks
-        return [(90, 5, 1, True, True, [2024, 2, 1], T), (75, 5, 2, False, True, [2024, 10, 18], True),
-                (35, 4, 6, "three", False, None, T), (2, 4, 1, False, True, [2024, 2, 28], None)]
+        return [(80, 5, 1, True, True, [2024, 2, 1], T), (70, 5, 2, False, True, [2024, 10, 23], True),
+                (25, 4, 6, "three", False, None, T), (2, 4, 1, False, True, [2024, 2, 28], None)]
     return [(180, 7, 2, True, True, None, T), (160, 6, 1, True, True, [2024, 1, 15], True), (130, 6, 2, False, True, None, T),
             (150, 6, 3, False, True, [2024, 6, 15], T), (100, 5, 1, True, True, None, True), (80, 5, 6, "three", True, None, T),
             (80, 4, 7, "three", False, None, T), (100, 5, 5, True, True, None, T), (90, 5, 1, False, True, None, None),
